@@ -310,7 +310,15 @@ def ref_excluded(op, val, vmin, vmax):
         if op == ">=":
             return bool(val > vmax)
         if op == "in":
-            return not any(vmin <= x <= vmax for x in val)
+            # the standard interval test on the sorted list (also defined for an inverted "interval", which is
+            # what category-order bounds of a categorical can be)
+            import bisect
+            sv = sorted(val)
+            if not sv:
+                return True
+            if vmin == vmax:
+                return not any(vmin == x for x in sv)
+            return bisect.bisect_left(sv, vmin) == bisect.bisect_right(sv, vmax)
         if op == "not in":
             return bool(vmin == vmax and any(vmin == x for x in val))
     except TypeError:
